@@ -219,6 +219,51 @@ def run(ctx, res):
     from ..affine import affine_scope, report_affine
     k8 = report_affine(ctx, res, "R1.8", affine_scope(ctx, hs, ("Point", "Line", "Plane", "Segment", "HalfLine")), "the intersection")
     ctx.require(res, "R1.8", k8, 20, "function contexts examined for position / direction mismatches")
+    # R1.9 no computed value is rounded on its way into the result (exact.report_rounding)
+    from ..exact import report_rounding
+    from ..affine import affine_scope as _ascope
+    kr = report_rounding(ctx, res, "R1.9", _ascope(ctx, hs, ()), "the intersection")
+    ctx.require(res, "R1.9", kr, 5, "functions scanned for rounding")
+    # R1.10 a Segment is built only from two points known to be distinct: the end points of two different operands can coincide
+    # (half lines that touch in their common origin), and Segment(p, p) raises ValueError
+    from ..astutil import parents as _parents
+    n10 = 0
+    for h_ in hs:
+        par_ = _parents(h_.node)
+        for c_ in walk_local(h_.node):
+            if not (isinstance(c_, ast.Call) and isinstance(c_.func, ast.Name) and c_.func.id == "Segment" and len(c_.args) == 2 and not c_.keywords):
+                continue
+            x_, y_ = c_.args
+            if not all({str(t) for t in ctx.types.types_at(h_, a_) if not isinstance(t, tuple)} == {"Point"} for a_ in (x_, y_)):
+                continue
+            n10 += 1
+            roots = []
+            for a_ in (x_, y_):
+                b_ = a_
+                while isinstance(b_, ast.Attribute):
+                    b_ = b_.value
+                roots.append(b_.id if isinstance(b_, ast.Name) and isinstance(a_, ast.Attribute) and b_.id in h_.params[:2] else None)
+            raw = None not in roots and roots[0] != roots[1]
+            guarded = False
+            cur_ = c_
+            while id(cur_) in par_:
+                cur_ = par_[id(cur_)]
+                if isinstance(cur_, ast.If):
+                    for t_ in ast.walk(cur_.test):
+                        if isinstance(t_, ast.Compare) and len(t_.ops) == 1 and isinstance(t_.ops[0], (ast.Eq, ast.NotEq)) \
+                                and {txt(t_.left), txt(t_.comparators[0])} == {txt(x_), txt(y_)}:
+                            guarded = True
+            if not raw:
+                res.ob("R1.10", h_.where(c_), "%s: `%s`" % (h_.short, txt(c_)[:50]), True, "two items of a deduplicated collection / computed points", nontrivial=False)
+                continue
+            res.ob("R1.10", h_.where(c_), "%s: `%s`" % (h_.short, txt(c_)[:50]), guarded,
+                   "guarded by a comparison of the two points" if guarded else "no test that the two end points differ")
+            if not guarded:
+                res.violation("R1.10", h_, c_, "%s builds `%s` from an end point of each operand without testing that they differ: two operands "
+                              "that touch exactly there (opposite half lines with a common origin) make the constructor raise "
+                              "ValueError instead of the touching Point being returned" % (h_.short, txt(c_)[:60]),
+                              construct="%s: `%s` from possibly equal end points" % (h_.short, txt(c_)[:40]))
+    ctx.require(res, "R1.10", n10, 3, "Segment constructions in the flat x flat handlers")
     # R1.5 the linear solver picks its pivot row by the pivot column (coverage.py)
     from ..coverage import check_pivot_choice
     check_pivot_choice(ctx, res, "R1.5")
